@@ -132,6 +132,26 @@ def h1_traces(ctx):
     return out
 
 
+def timed_priority(b):
+    """a later request stores (miss path) while a short-lived object of another key has expired without having been asked for
+    again; or an object stored short is stored again / extended before that lifetime is over and asked for after it"""
+    short = {}      # url -> time its short lifetime ends
+    for r in b["reqs"]:
+        t = r.get("t", 0)
+        acts = {(c["sub"], c["beh"]) for c in r["prog"]}
+        stores = any(c["sub"] == "fetch" for c in r["prog"]) and r.get("storedAfter")
+        for u, end in list(short.items()):
+            if u != r["url"] and t > end and stores and ("recv", "pass") not in acts:
+                return True
+            if u == r["url"] and t <= end and (("hit", "extend") in acts or (stores and ("fetch", "shortttl") not in acts)):
+                return True
+        if ("fetch", "shortttl") in acts and r.get("storedAfter"):
+            short[r["url"]] = t + 5
+        elif r["url"] in short:
+            del short[r["url"]]
+    return False
+
+
 def run(ctx):
     quick = ctx.tier == "quick"
     ctx.rule = ("behaviours = complete request histories emitted by TLC from spec/Lifecycle.tla (k-switch cover over "
@@ -173,13 +193,19 @@ def run(ctx):
                                  "(a lead, not a verdict - see tlc output)" % m.violated)
         beh_files.append(m.beh_path)
     # timed histories (real time passes between requests; the replayer sleeps): object lifetimes and the penalty box
-    for cfg in ("LifecycleTimedObj.cfg", "LifecycleTimedJail.cfg"):
+    for cfg in ("LifecycleTimedObj.cfg", "LifecycleTimedJail.cfg", "LifecycleTimedTwo.cfg"):
         tm = ctx.tlc("Lifecycle", cfg=cfg, timeout=900, tag="timed:" + cfg)
         if tm.violated:
             raise MachineryFault("Lifecycle.tla (%s) violates %s on the model" % (cfg, tm.violated))
         lines = open(tm.beh_path).readlines()
         if quick and len(lines) > 160:
-            lines = ctx.rng.sample(lines, 160)
+            # histories in which an object of ANOTHER key has expired unrevisited when a request stores, or an object is
+            # re-stored / extended before its first lifetime is over, come first (state a sweep or a timer could damage)
+            prio = [l for l in lines if timed_priority(json.loads(l))]
+            ctx.rng.shuffle(prio)
+            prio = prio[:60]
+            rest = [l for l in lines if l not in set(prio)]
+            lines = prio + ctx.rng.sample(rest, min(len(rest), 160 - len(prio)))
         tp = os.path.join(ctx.work, "timed_" + cfg + ".jsonl")
         open(tp, "w").writelines(lines)
         beh_files.append(tp)
